@@ -85,7 +85,14 @@ def run_raw_once(eng, case):
         if CH.mode == 'want':
             CH.want = picks[i] if i < len(picks) else -1
         try:
-            if h[0] == 'a':
+            if h[0] == 'B':
+                bl = [[b.start, b.size] for b in a.blocks()]
+                e = dict(n='blocks', x=0, k='ok', r=-1, bl=bl)
+            elif h[0] == 'A':       # what Server._free_all_buffers does with its allocator (S->C replay of the L2 action)
+                for b in a.blocks():
+                    a.free(b.address)
+                e = dict(n='freeall', x=0, k='ok', r=-1)
+            elif h[0] == 'a':
                 r = a.alloc(h[1])
                 got.append(r)
                 e = dict(n='alloc', x=h[1], k='none' if r is None else 'ok', r=-1 if r is None else r)
@@ -246,6 +253,18 @@ def _srv_step(mods, what, s, h, objs_w, ev, wi):
                 nospace = (isinstance(ex, bus.BusException) and 'failed to get' in msg) or \
                     ('consecutive buffer numbers is available' in msg) or ('No more buffer numbers' in msg)
                 ev.append(dict(n='alloc', x=n, k=kind_of(ex, nospace), r=-1 if nospace else -2))
+        elif h[0] == 'B':           # the allocator's own list of live ranges
+            al = {'abus': s._audio_bus_allocator, 'cbus': s._control_bus_allocator, 'buf': s._buffer_allocator}[what]
+            try:
+                ev.append(dict(n='blocks', x=0, k='ok', r=-1, bl=[[b.start, b.size] for b in al.blocks()]))
+            except Exception as ex:
+                ev.append(dict(n='blocks', x=0, k='exc:' + type(ex).__name__, r=-2, bl=[]))
+        elif h[0] == 'A':           # Buffer.free_all(server)
+            try:
+                buf.Buffer.free_all(s)
+                ev.append(dict(n='freeall', x=0, k='ok', r=-1))
+            except Exception as ex:
+                ev.append(dict(n='freeall', x=0, k='exc:' + type(ex).__name__, r=-2))
         elif h[0] == 'f':
             group = objs[h[1]] if h[1] < len(objs) else []
             if not group:
